@@ -5,7 +5,9 @@
    label are given inline or through a label_enum.  perm = order of the label names in the backing vector.
    A leaf (one index per label) denotes exactly the child whose label values are those declared along the path. *)
 EXTENDS Integers, Sequences, FiniteSets, TLC, Json
-CONSTANTS MaxLabels, MaxVals
+CONSTANTS MaxLabels, MaxVals,
+          PartN, PartK     \* the declarations are enumerated in PartN slices (TLC generates initial states on ONE thread, so the
+                           \* thorough tier runs the slices as parallel TLC processes); PartN = 1, PartK = 0: everything at once
 \* kind of a declared value: "plain" (the label value is the field name), "renamed" (field: "other string"), or "alias"
 \* (a second field name for the SAME label value as the previous field, e.g.  ok: "success", success: "success")
 ValDef == [kind : {"plain", "renamed", "alias"}]
@@ -13,7 +15,11 @@ ValDef == [kind : {"plain", "renamed", "alias"}]
 LabelDef == {l \in [enum : BOOLEAN, vals : UNION {[1..k -> ValDef] : k \in 1..MaxVals}] : l.vals[1].kind # "alias"}
 Perms(n) == {p \in [1..n -> 1..n] : \A i, j \in 1..n : i # j => p[i] # p[j]}
 VARIABLES labels, perm
-Init == \E n \in 1..MaxLabels : labels \in [1..n -> LabelDef] /\ perm \in Perms(n)
+KindNum(k) == CASE k = "plain" -> 0 [] k = "renamed" -> 1 [] OTHER -> 2
+Slice(ls, pm) == LET n == Len(ls) m == Len(ls[n].vals) IN
+                 (pm[1] + 2 * pm[n] + 3 * Len(ls[1].vals) + 5 * m + (IF ls[1].enum THEN 7 ELSE 0) + (IF ls[n].enum THEN 11 ELSE 0)
+                  + 13 * KindNum(ls[1].vals[1].kind) + 17 * KindNum(ls[n].vals[m].kind)) % PartN
+Init == \E n \in 1..MaxLabels : labels \in [1..n -> LabelDef] /\ perm \in Perms(n) /\ Slice(labels, perm) = PartK
 Spec == Init /\ [][UNCHANGED <<labels, perm>>]_<<labels, perm>>
 
 N == Len(labels)
